@@ -47,6 +47,12 @@ type c05Job struct {
 	addr          ma.Multiaddr
 	release       chan struct{}
 	released      bool
+	// hold: the job has a response channel of its own, unbuffered and not drained.  silent
+	// (set by the harness before it closes release): the return of dialFunc is not the end
+	// of the attempt - the result is being delivered - so the invocation stays counted as in
+	// progress until the harness sees the context of the job cancelled (heldCancel).
+	hold, silent bool
+	resp         chan transport.DialUpdate
 }
 
 type c05Lim struct {
@@ -62,6 +68,9 @@ type c05Lim struct {
 	cancels  map[int64]context.CancelFunc
 	resp     chan transport.DialUpdate
 	line     []int64
+	holdNext bool            // the next add makes a hold job
+	held     map[int64]int64 // context id -> the hold job of that context whose result is being delivered
+	sawHeldCancel bool
 	// coverage of this case
 	sawFdWait, sawPeerWait, sawCancelledHead, sawWitnessShape, sawAddCancelled bool
 }
@@ -74,6 +83,7 @@ func newC05Lim(fdl, ppl int64) *c05Lim {
 		jobs: map[int64]*c05Job{}, peers: map[int64]peer.ID{}, peerNo: map[peer.ID]int64{},
 		ctxs: map[int64]context.Context{}, cancels: map[int64]context.CancelFunc{},
 		resp: make(chan transport.DialUpdate, 4096),
+		held: map[int64]int64{},
 		line: []int64{1, fdl, ppl},
 	}
 	c.dl = newDialLimiterWithParams(c.dialFunc, int(fdl), int(ppl))
@@ -87,9 +97,11 @@ func (c *c05Lim) dialFunc(_ context.Context, _ peer.ID, a ma.Multiaddr, _ chan<-
 	c.everRun[j.id]++
 	c.mu.Unlock()
 	<-j.release
-	c.mu.Lock()
-	c.inflight[j.id]--
-	c.mu.Unlock()
+	if !j.silent {
+		c.mu.Lock()
+		c.inflight[j.id]--
+		c.mu.Unlock()
+	}
 	return nil, errors.New("c05 scripted failure")
 }
 
@@ -155,7 +167,11 @@ func (c *c05Lim) add(id, p, kind, g int64) {
 		c.peerNo[c.peers[p]] = p
 	}
 	a := ma.StringCast(fmt.Sprintf(c05AddrKinds[kind], 2000+id))
-	j := &c05Job{id: id, peer: p, grp: g, addr: a, release: make(chan struct{})}
+	j := &c05Job{id: id, peer: p, grp: g, addr: a, release: make(chan struct{}), resp: c.resp}
+	if c.holdNext {
+		c.holdNext = false
+		j.hold, j.resp = true, make(chan transport.DialUpdate)
+	}
 	if c.dl.shouldConsumeFd(a) {
 		j.fd = 1
 	}
@@ -165,7 +181,7 @@ func (c *c05Lim) add(id, p, kind, g int64) {
 	if x.Err() != nil {
 		c.sawAddCancelled = true
 	}
-	c.dl.AddDialJob(&dialJob{addr: a, peer: c.peers[p], ctx: x, resp: c.resp, timeout: time.Hour})
+	c.dl.AddDialJob(&dialJob{addr: a, peer: c.peers[p], ctx: x, resp: j.resp, timeout: time.Hour})
 	synctest.Wait()
 	c.line = append(c.line, 1, id, p, j.fd, g)
 	c.observe()
@@ -173,6 +189,10 @@ func (c *c05Lim) add(id, p, kind, g int64) {
 
 func (c *c05Lim) cancel(g int64) {
 	c.ctx(g)
+	if _, ok := c.held[g]; ok {
+		c.heldCancel(g)
+		return
+	}
 	c.cancels[g]()
 	synctest.Wait()
 	c.line = append(c.line, 2, g)
@@ -190,9 +210,56 @@ func (c *c05Lim) clear(p int64) {
 	c.observe()
 }
 
+// The dialFunc of a hold job returns while the context of the job is live: nobody receives
+// from the job's response channel, so the executeDial goroutine parks in the delivery of the
+// result, still holding its tokens.  Nothing is recorded (wire stimulus 5 is recorded when the
+// context is cancelled); at most one such job per context at a time.
+func (c *c05Lim) silentRelease(id int64) bool {
+	j := c.jobs[id]
+	if j == nil || !j.hold || j.released || c.ctx(j.grp).Err() != nil {
+		return false
+	}
+	if _, ok := c.held[j.grp]; ok {
+		return false
+	}
+	c.mu.Lock()
+	running := c.inflight[id] > 0
+	c.mu.Unlock()
+	if !running {
+		return false
+	}
+	j.silent, j.released = true, true
+	c.held[j.grp] = id
+	close(j.release)
+	synctest.Wait()
+	return true
+}
+
+// wire stimulus 5: the context of a job whose result is being delivered is cancelled
+func (c *c05Lim) heldCancel(g int64) {
+	id := c.held[g]
+	delete(c.held, g)
+	synctest.Wait()
+	c.line = append(c.line, 5, id, g)
+	c.observe() // the goroutine is parked in the delivery: the attempt is in progress
+	c.cancels[g]()
+	synctest.Wait()
+	// the result was not delivered and every caller of the context has given up: the attempt is over
+	c.mu.Lock()
+	c.inflight[id]--
+	c.mu.Unlock()
+	c.observe()
+	c.sawHeldCancel = true
+}
+
 func (c *c05Lim) releaseJob(id int64) {
 	j := c.jobs[id]
 	if j == nil || j.released {
+		return
+	}
+	if j.hold && c.ctx(j.grp).Err() == nil {
+		// a plain return would leave the goroutine parked in the delivery for good
+		c.silentRelease(id)
 		return
 	}
 	// coverage: the shape of the repaired defect
@@ -229,6 +296,14 @@ func (c *c05Lim) inflightIDs() []int64 {
 // releases whatever is in flight until nothing is.  Every step is a recorded
 // stimulus; the last observation is the one the residue clause is judged on.
 func (c *c05Lim) finish(r *verifh.Rand) {
+	var hs []int64
+	for g := range c.held {
+		hs = append(hs, g)
+	}
+	sort.Slice(hs, func(i, j int) bool { return hs[i] < hs[j] })
+	for _, g := range hs {
+		c.heldCancel(g)
+	}
 	var gs []int64
 	for g, x := range c.ctxs {
 		if x.Err() == nil {
@@ -251,10 +326,23 @@ func (c *c05Lim) finish(r *verifh.Rand) {
 		c.releaseJob(pick)
 	}
 	// make sure no goroutine stays parked in the bubble whatever happened
+	c.unpark()
+}
+
+func (c *c05Lim) unpark() {
 	for _, j := range c.jobs {
 		if !j.released {
 			j.released = true
 			close(j.release)
+		}
+	}
+	synctest.Wait()
+	for _, j := range c.jobs {
+		if j.hold {
+			select {
+			case <-j.resp:
+			default:
+			}
 		}
 	}
 	synctest.Wait()
@@ -277,6 +365,33 @@ func (c *c05Lim) cover(out *verifh.Out) {
 	if c.sawAddCancelled {
 		out.Cover("limiter.add_with_cancelled_context")
 	}
+	if c.sawHeldCancel {
+		out.Cover("limiter.cancel_while_a_finished_attempt_is_delivering_its_result")
+	}
+}
+
+// An attempt finishes while nobody receives its result, then the last caller gives up: the
+// result is dropped and the tokens of the attempt go to the jobs that wait for them.
+// fdLimit 1, perPeerLimit 1; `between` more stimuli between the return of dialFunc and the
+// cancellation.
+func c05LimHeldResult(out *verifh.Out, kind int64, between int) {
+	c := newC05Lim(1, 1)
+	c.holdNext = true
+	c.add(1, 1, kind, 1) // runs; its result will find no receiver
+	c.add(2, 1, 1, 2)    // same peer: waits on the peer limit
+	c.add(3, 2, 0, 2)    // another peer, TCP: waits for the FD token when job 1 holds it
+	c.silentRelease(1)   // dialFunc of job 1 returns; executeDial parks in the delivery
+	if between >= 1 {
+		c.add(4, 3, 1, 3)
+	}
+	if between >= 2 {
+		c.releaseJob(4)
+	}
+	c.cancel(1) // the only caller of job 1 gives up: stimulus 5
+	c.finish(nil)
+	c.cover(out)
+	out.Cover("limiter.corpus_result_nobody_receives_then_cancel")
+	out.Case(c.line)
 }
 
 // the witness of the defect repaired by 243a477: fdLimit 1, a cancelled FD
@@ -312,6 +427,7 @@ func c05LimRandom(out *verifh.Out, r *verifh.Rand, size int) {
 	cancelled := map[int64]bool{}
 	// bias of this case
 	fdBias := 3 + r.Intn(6) // out of 10 jobs, how many use a TCP-like address
+	holdCase := r.Chance(1, 3)
 	for i := 0; i < size; i++ {
 		k := r.Intn(100)
 		ids := c.inflightIDs()
@@ -329,6 +445,10 @@ func c05LimRandom(out *verifh.Out, r *verifh.Rand, size int) {
 						g = gg
 					}
 				}
+			}
+			if holdCase && r.Chance(1, 4) {
+				c.holdNext = true
+				out.Cover("limiter.op.add_job_whose_result_nobody_receives")
 			}
 			c.add(next, int64(1+r.Intn(npeers)), kind, g)
 			next++
@@ -389,6 +509,11 @@ func TestVerifC05(t *testing.T) {
 			c05Bubble(t, func() { c05LimWitness(out, ppl, dk) })
 		}
 	}
+	for _, k := range []int64{0, 1} {
+		for b := 0; b <= 2; b++ {
+			c05Bubble(t, func() { c05LimHeldResult(out, k, b) })
+		}
+	}
 	n := 2500
 	if thorough {
 		n = 60000
@@ -426,6 +551,8 @@ func TestVerifC05(t *testing.T) {
 	c05Bubble(t, func() { c05DialPeerFallbackTransport(out) })
 	c05Bubble(t, func() { c05DialPeerWrongPeerConn(out) })
 	c05Bubble(t, func() { c05DialPeerBackoffExpires(out) })
+	c05Bubble(t, func() { c05DialPeerTimeouts(out, false) })
+	c05Bubble(t, func() { c05DialPeerTimeouts(out, true) })
 	for i := 0; i < nd; i++ {
 		size := 6 + r.Intn(30)
 		c05Bubble(t, func() { c05DialPeerRandom(out, r, size) })
@@ -489,19 +616,55 @@ func c05LimReplay(out *verifh.Out, in []int64) {
 		}
 		return 1
 	}
+	// the jobs whose result nobody receives (named by a stimulus 5)
+	hold := map[int64]bool{}
 	for i := 3; i < len(in); {
 		switch in[i] {
 		case 1:
+			i += 5
+		case 2, 3, 4:
+			i += 2
+		case 5:
+			if i+1 < len(in) {
+				hold[in[i+1]] = true
+			}
+			i = c05SkipObs(in, i+3)
+		default:
+			i = len(in)
+			continue
+		}
+		i = c05SkipObs(in, i)
+	}
+	for i := 3; i < len(in); {
+		switch in[i] {
+		case 1:
+			if i+4 >= len(in) {
+				i = len(in)
+				continue
+			}
+			c.holdNext = hold[in[i+1]]
 			c.add(in[i+1], in[i+2], kindOf(in[i+3]), in[i+4])
 			i += 5
 		case 2:
+			if i+1 >= len(in) {
+				i = len(in)
+				continue
+			}
 			c.cancel(in[i+1])
 			i += 2
 		case 3:
+			if i+1 >= len(in) {
+				i = len(in)
+				continue
+			}
 			c.clear(in[i+1])
 			i += 2
 		case 4:
-			if j := c.jobs[in[i+1]]; j != nil && !j.released && c.inflight[in[i+1]] > 0 {
+			if i+1 >= len(in) {
+				i = len(in)
+				continue
+			}
+			if j := c.jobs[in[i+1]]; j != nil && !j.released && c.inflight[in[i+1]] > 0 && !(j.hold && c.ctx(j.grp).Err() == nil) {
 				c.releaseJob(in[i+1])
 			} else {
 				// the recorded release is not possible now: record it with the
@@ -511,18 +674,28 @@ func c05LimReplay(out *verifh.Out, in []int64) {
 				c.observe()
 			}
 			i += 2
+		case 5:
+			if i+2 >= len(in) {
+				i = len(in)
+				continue
+			}
+			id, g := in[i+1], in[i+2]
+			if j := c.jobs[id]; j != nil && j.grp == g && c.silentRelease(id) {
+				c.heldCancel(g)
+			} else {
+				// not possible now: both observations as they are, so that the divergence is visible
+				synctest.Wait()
+				c.line = append(c.line, 5, id, g)
+				c.observe()
+				c.observe()
+			}
+			i = c05SkipObs(in, i+3)
 		default:
 			i = len(in)
 			continue
 		}
 		i = c05SkipObs(in, i)
 	}
-	for _, j := range c.jobs {
-		if !j.released {
-			j.released = true
-			close(j.release)
-		}
-	}
-	synctest.Wait()
+	c.unpark()
 	out.Case(c.line)
 }
